@@ -98,3 +98,40 @@ fn c11_change_jump_operand() {
         i += 1;
     }
 }
+
+const MAX_INT: isize = isize::MAX >> 3;
+const MIN_INT: isize = isize::MIN >> 3;
+fn any_int() -> isize {
+    let v: isize = kani::any();
+    kani::assume(v >= MIN_INT && v <= MAX_INT);
+    v
+}
+
+/// O10.1 [bounded: pool of 0..=2 existing integer constants, symbolic new integer constant] add_constant(obj): the returned slot
+/// holds a constant of the same type and content; every earlier slot is unchanged; the index is in range.
+/// So a literal that also occurs elsewhere in the program (merged slot) or other literals (shifted slots)
+/// cannot change what a literal means.
+unsafe fn as_str_contract(_o: &Object) -> &str { "" }
+unsafe fn as_f64_contract(_o: Object) -> f64 { 0.0 }
+#[kani::proof]
+#[kani::unwind(5)]
+#[kani::stub(Object::as_str_unchecked, as_str_contract)]
+#[kani::stub(Object::as_f64_unchecked, as_f64_contract)]
+fn c10_add_constant() {
+    let mut c = compiler_with(vec![]);
+    let n: usize = kani::any();
+    kani::assume(n <= 2);
+    let (p0, p1, v) = (any_int(), any_int(), any_int());
+    let (e0, e1, obj) = (Object::int(p0), Object::int(p1), Object::int(v));
+    c.constants = Vec::with_capacity(4); // no reallocation inside the function under contract (cheaper for CBMC)
+    if n >= 1 { c.constants.push(e0); }
+    if n >= 2 { c.constants.push(e1); }
+    kani::cover!(n == 2 && v == p1 && v != p0);
+    let idx = c.add_constant(obj) as usize;
+    assert!(idx < c.constants.len());
+    assert!(word(c.constants[idx]) == word(obj));
+    assert!(c.constants.len() == n || c.constants.len() == n + 1);
+    if n >= 1 { assert!(word(c.constants[0]) == word(e0)); }
+    if n >= 2 { assert!(word(c.constants[1]) == word(e1)); }
+    assert!(c.instructions.len() == 0);
+}
